@@ -152,6 +152,8 @@ def run_case(cid, rng, workdir):
         rn = rng.choice(sorted(sysd["residues"]))
         sysd["moltypes"].append({"name": "SOLV", "res": [rn], "edges": [], "links": [], "shape": "lin"})
         sysd["molecules"].append(("SOLV", rng.randint(2, 5)))
+    if rng.random() < 0.25 and T.alias_residues(rng, sysd):
+        bump(res, "systems_with_two_residues_under_one_name")
     text = T.render_top(sysd)
     with open(os.path.join(workdir, "s.top"), "w") as fh:
         fh.write(text)
